@@ -1,8 +1,127 @@
 import Pose.Wire
-/-! Driver ops for C09. -/
+import Pose.Model.Kernel
+import Pose.Model.Corrector
+/-! Driver ops for C09 (robust kernels, correctors, kernel/corrector plumbing). -/
 namespace PP.Driver
-open PP Wire
+open PP Wire Kernel Corrector
 
-def opsC09 : List (String × Handler) := []
+def kindOf (s : String) : Except String Kind :=
+  match s with
+  | "huber" => .ok .huber
+  | "pseudohuber" => .ok .pseudoHuber
+  | "cauchy" => .ok .cauchy
+  | "softlone" => .ok .softLOne
+  | "arctan" => .ok .arctan
+  | "tolerant" => .ok .tolerant
+  | "scale" => .ok .scale
+  | "poly" => .ok .poly
+  | _ => .error s!"bad-kind:{s}"
+
+/-- `<kind> <p1> <p2> <p3>` followed by the rest -/
+def specOf (ts : List String) : Except String (Spec BigF × List String) :=
+  match ts with
+  | kd :: a :: b :: c :: rest => do
+    let kd ← kindOf kd
+    let a ← num a; let b ← num b; let c ← num c
+    return (⟨kd, a, b, c⟩, rest)
+  | _ => .error "arity"
+
+def getA (a : Array BigF) (i : Nat) : BigF := a.getD i BigF.zero
+
+/-- `N d p R… J…` -/
+def batchOf (ts : List String) : Except String (Nat × Nat × Nat × Array BigF × Array BigF) :=
+  match ts with
+  | n :: d :: p :: rest => do
+    let n ← nat n; let d ← nat d; let p ← nat p
+    let xs ← nums rest
+    if xs.length ≠ n * d + n * d * p then throw "arity" else
+    return (n, d, p, (xs.take (n * d)).toArray, (xs.drop (n * d)).toArray)
+  | _ => .error "arity"
+
+def flatOut (n d p : Nat) (out : Nat → Out BigF) : List BigF :=
+  ((List.range n).flatMap fun i => (List.range d).map fun a => (out i).R a) ++
+  ((List.range n).flatMap fun i => (List.range d).flatMap fun a => (List.range p).map fun l => (out i).J a l)
+
+def b01 (b : Bool) : BigF := if b then BigF.one else BigF.zero
+
+/-- selection tokens: kernels are natural numbers, `N` is `None` -/
+def optNat (s : String) : Except String (Option Nat) :=
+  if s == "N" then .ok none else (nat s).map some
+
+/-- `none` | `one <id>` | `many <n> <id|N>…`, returns the argument and the remaining tokens -/
+def argOf (ts : List String) : Except String (Arg Nat × List String) :=
+  match ts with
+  | "none" :: rest => .ok (.none, rest)
+  | "one" :: c :: rest => do let c ← nat c; return (.one c, rest)
+  | "many" :: n :: rest => do
+    let n ← nat n
+    let (hd, tl) ← take n rest
+    let cs ← hd.mapM optNat
+    return (.many cs, tl)
+  | _ => .error "arity"
+
+def fmtK : KSel Nat → String
+  | .trivial => "T"
+  | .ker c => s!"K{c}"
+
+def fmtC : CSel Nat Nat → String
+  | .trivial => "T"
+  | .auto c => "A" ++ fmtK c
+  | .user c => s!"U{c}"
+
+def opsC09 : List (String × Handler) := [
+  -- c09.kernel <kind> p1 p2 p3 x…          kernel(input) on a flattened tensor; err negative = AssertionError
+  ("c09.kernel", fun ts => do
+      let (s, rest) ← specOf ts
+      let xs ← nums rest
+      match onTensor s xs with
+      | none => throw "negative"
+      | some ys => return fmt ys),
+  -- c09.d12 <kind> p1 p2 p3 x…             rho'(x) rho''(x) pairs
+  ("c09.d12", fun ts => do
+      let (s, rest) ← specOf ts
+      let xs ← nums rest
+      return fmt (xs.flatMap fun x => [s.d1 x, s.d2 x])),
+  -- c09.fast <kind> p1 p2 p3 N d p R… J…   FastTriggs: R' (N·d) then J' (N·d·p)
+  ("c09.fast", fun ts => do
+      let (s, rest) ← specOf ts
+      let (n, d, p, R, J) ← batchOf rest
+      let out := fun i => fastOf s.d1 d (fun a => getA R (i * d + a)) (fun a l => getA J ((i * d + a) * p + l))
+      return fmt (flatOut n d p out)),
+  -- c09.triggs <kind> p1 p2 p3 N d p R… J… Triggs: R', J', then the mask (N values 0/1)
+  ("c09.triggs", fun ts => do
+      let (s, rest) ← specOf ts
+      let (n, d, p, R, J) ← batchOf rest
+      let Ri := fun (i : Nat) => fun a => getA R (i * d + a)
+      let out := fun i => triggsOf s.d1 s.d2 d (Ri i) (fun a l => getA J ((i * d + a) * p + l))
+      let ms := (List.range n).map fun i => let x := normSq d (Ri i); b01 (mask x (s.d2 x))
+      return fmt (flatOut n d p out ++ ms)),
+  -- c09.lossone <kind> p1 p2 p3 N d R…     kernel(r.square().sum(-1)).sum()
+  ("c09.lossone", fun ts => do
+      let (s, rest) ← specOf ts
+      match rest with
+      | n :: d :: rest => do
+        let n ← nat n; let d ← nat d
+        let xs ← nums rest
+        if xs.length ≠ n * d then throw "arity" else
+        let R := xs.toArray
+        return fmt [lossOne s.val n d (fun i a => getA R (i * d + a))]
+      | _ => throw "arity"),
+  -- c09.select <nres> <kernel-arg> <corrector-arg>
+  --   reply: nres loss-kernel tokens (T | K<id> | -) then nres step-corrector tokens (T | AT | AK<id> | U<id> | -)
+  ("c09.select", fun ts => do
+      match ts with
+      | n :: rest => do
+        let nres ← nat n
+        let (ka, rest) ← argOf rest
+        let (ca, rest) ← argOf rest
+        if !rest.isEmpty then throw "arity" else
+        let ks := robustKernels ka
+        let cs : List (CSel Nat Nat) := correctors ka ca
+        let lk := (List.range nres).map fun i => match lossKernel ks nres i with | some c => fmtK c | none => "-"
+        let sc := (List.range nres).map fun i => match stepCorrector cs i with | some c => fmtC c | none => "-"
+        return " ".intercalate (lk ++ sc)
+      | _ => throw "arity")
+]
 
 end PP.Driver
